@@ -151,3 +151,34 @@ Lemma nbd_collect_exact t maxn ds :
   nbd_collect t ds 0 maxn
   = firstn (Nat.max maxn 1) (flat_map (fun d => nodes (get_bucket t (N.to_nat (d - 1)))) ds).
 Proof. rewrite nbd_collect_exact_acc. unfold quota. now rewrite Nat.sub_0_r. Qed.
+
+(* ------------------------------------------------------------------------------------------ *)
+(* The bound on max_nodes_response in [packet_fits_config] cannot be dropped altogether: with a
+   configured maximum of 1280, a table (built by insert_or_update) with 16 nodes in each of the
+   buckets 177..256, records of 235 bytes, a request id of 8 bytes and a FINDNODE for these 80
+   distances, the answer has 256 packets (total needs 3 RLP bytes) of 5 records each and every
+   packet is 1281 bytes on the wire.  Configuration corner (the default maximum is 16). *)
+Definition big_cfg : config := {| max_incoming := 16; pending_timeout := 60; bfilter := None; tfilter := None |}.
+Definition big_keys : list N :=
+  flat_map (fun i => map (fun j => 2 ^ N.of_nat i + N.of_nat j) (seq 0 16)) (seq 176 80).
+Definition big_table : table :=
+  fold_left (fun t k => fst (t_insert_or_update big_cfg t k {| vid := k; vsub := None |} true false 1))
+            big_keys (new_table 0).
+
+Lemma packet_over_1280_with_large_maximum :
+  exists c t lv requester id ds maxn rsize now,
+    (forall v, rsize v <= MAX_ENR_SIZE) /\ (length id <= 8)%nat /\ maxn = 1280%nat /\
+    length (snd (serve_findnode c t lv requester id ds maxn rsize now)) = 256%nat /\
+    forall p, In p (snd (serve_findnode c t lv requester id ds maxn rsize now)) ->
+      wire_size (nodes_msg_size rsize p) = MAX_PACKET_SIZE + 1.
+Proof.
+  exists big_cfg, big_table, {| vid := 99; vsub := None |}, 7, [200; 1; 2; 3; 4; 5; 6; 7],
+         (map N.of_nat (seq 177 80)), 1280%nat, (fun _ => 235), 2.
+  split; [intros _; vm_compute; discriminate|]. split; [cbn; lia|]. split; [reflexivity|].
+  split; [vm_compute; reflexivity|].
+  assert (H : forallb (fun p => wire_size (nodes_msg_size (fun _ => 235) p) =? MAX_PACKET_SIZE + 1)
+                (snd (serve_findnode big_cfg big_table {| vid := 99; vsub := None |} 7 [200; 1; 2; 3; 4; 5; 6; 7]
+                        (map N.of_nat (seq 177 80)) 1280%nat (fun _ => 235) 2)) = true)
+    by (vm_compute; reflexivity).
+  intros p Hp. apply N.eqb_eq. exact (proj1 (forallb_forall _ _) H p Hp).
+Qed.
